@@ -1052,6 +1052,26 @@ def search(ctx):
                          "user_guide_constants": GUIDE_EXITS}
 
 
+def mutate_generic(rng, prob, kw, d):
+    """regularisers that REQUIRE their documented extra arguments (argsh / argsprox), more often than the base generator"""
+    n = prob["n"]
+    if "h" not in kw and not kw.get("scaling_within_bounds") and rng.random() < 0.15:
+        lam = float(10 ** rng.uniform(-2, 0))
+        kw["h"] = lambda x, lam=lam: lam * float(np.sum(np.abs(x)))
+        kw["lh"] = lam * float(np.sqrt(n))
+        kw["prox_uh"] = lambda x, u, lam=lam: np.sign(x) * np.maximum(np.abs(x) - lam * u, 0.0)
+        kw["maxfun"] = min(kw["maxfun"], 60)
+        d["maxfun"] = kw["maxfun"]
+        d["regu"] = lam
+    if "h" in kw and rng.random() < 0.7:
+        lam = float(d.get("regu", 0.1))
+        kw["h"] = lambda x, w, lam=lam: lam * w * float(np.sum(np.abs(x)))            # no default: the extra argument is required
+        kw["prox_uh"] = lambda x, u, w, lam=lam: np.sign(x) * np.maximum(np.abs(x) - lam * w * u, 0.0)
+        kw["argsh"] = (1.0,)
+        kw["argsprox"] = (1.0,)
+        d["regu_args"] = True
+
+
 def generic_option_space(ctx, dfols, seen_sig):
     """solve over the random configurations of the documented option space used by the trace properties
     (bounds / one-sided / scaling / projections / averaging / restarts / npt / growing / regression / noise /
@@ -1064,8 +1084,9 @@ def generic_option_space(ctx, dfols, seen_sig):
     stats = {"runs": 0, "exceptions": {}, "flags": {}}
     for i in range(n):
         seed = [ctx.seed, 7070, i]
-        prob, kw, d, t = ss.gen_run(dfols, seed, alarm=20)
+        prob, kw, d, t = ss.gen_run(dfols, seed, alarm=20, mutate_cfg=mutate_generic)
         stats["runs"] += 1
+        stats["regulariser_with_required_args"] = stats.get("regulariser_with_required_args", 0) + int(bool(d.get("regu_args")))
         ctx.seen(("c07generic", i))
         sig = what = None
         if isinstance(t.exception, core.Alarm):
@@ -1099,7 +1120,7 @@ def replay(payload):
     if rp.get("generic_seed"):
         import solve_suite as ss
         dfols = core.import_dfols()
-        prob, kw, d, t = ss.gen_run(dfols, rp["generic_seed"], alarm=20)
+        prob, kw, d, t = ss.gen_run(dfols, rp["generic_seed"], alarm=20, mutate_cfg=mutate_generic)
         bad = t.exception is not None
         print("replay:", "still raises %r" % (t.exception,) if bad else "property holds on this input now")
         return 1 if bad else 0
